@@ -1266,6 +1266,30 @@ impl<'a> Sim<'a> {
             self.ctx.bump("skipped_out_of_domain_zero_value_portfolio");
             return;
         }
+        // "liquidation value" under the property's cost model, computed here from cash, holdings and the
+        // last seen bids: what selling every position would leave after costs (per-share fees move the
+        // price, not the proceeds). The broker's own figure, which sizes the orders, must be this number.
+        if self.ctx.wants("C12") {
+            let mut own = o0.cash;
+            let mut mag = o0.cash.abs();
+            for (sym, qty) in &o0.holdings {
+                if *qty == 0.0 {
+                    // not a position: nothing to sell, no fee to pay
+                    continue;
+                }
+                if let Some(q) = o0.quotes.get(sym) {
+                    let v = q.0 * *qty;
+                    let (net, _) = impact_total(&self.cost_specs, v, q.0, false);
+                    own += net;
+                    mag += v.abs() + net.abs();
+                }
+            }
+            rule!(
+                self.ctx, "C12", "liquidation-value", "cost-model", (o0.liq - own).abs() <= 1e-9 * mag.max(1.0),
+                "before diff: the broker's liquidation value is {:?}, but cash {:?} + what the positions {{{}}} fetch at the last seen bids after costs {:?} is {:?}",
+                o0.liq, o0.cash, fmt_map(&o0.holdings), self.cost_specs, own
+            );
+        }
         let map1 = realise(&w);
         let got1 = self.brkr.diff_brkr_against_target_weights(&map1);
         let (exp, zero_gap, negative_budget) = expected_diff(o0, &self.cost_specs, &w);
